@@ -269,6 +269,8 @@ struct ClmRoundtrip : Family {
 			ref::WaveFormat fmtForExtract = ins.empty() ? ref::WaveFormat() : common;
 			ck.verify = [&](const Member& m, const std::vector<uint8_t>& file) { return ref::checkExtractedWav(file, fmtForExtract, m.data); };
 			ck.extractExt = ".wav";
+			// an older extraction result of the same shape: same format, same length, other audio bytes
+			ck.onDisk = [&](const Member&, const std::vector<uint8_t>& data) { ref::WavSpec s; s.fmt = fmtForExtract; s.data = data; return ref::encodeWav(s); };
 			if (op.verb == "listing") ck.listing();
 			else if (op.verb == "stream") ck.stream(static_cast<size_t>(op.u("i")), op.u("rseed"), op.u("byname") != 0, op.u("case"));
 			else if (op.verb == "extract") ck.extract(static_cast<size_t>(op.u("i")), op.u("byname") != 0, op.u("case"), oi);
